@@ -11,11 +11,23 @@ import (
 // ---- lock classes --------------------------------------------------------
 
 type lclass struct {
-	kind int // 0 handle, 1 store, 2 map
+	kind int // 0 handle (DB.l), 1 store, 2 map, 3 schemas (DB.sl)
 	inst int // 0 cache, 1 asyncw (kind 1 and 2 only)
 }
 
 var lHandle = lclass{0, 0}
+var lSchemas = lclass{3, 0}
+
+// dbLockClass: the lock class of a mutex field of DB, by field name.
+func dbLockClass(field string) (lclass, bool) {
+	switch field {
+	case "l":
+		return lHandle, true
+	case "sl":
+		return lSchemas, true
+	}
+	return lclass{}, false
+}
 
 func (c lclass) rank() int { return c.kind }
 
@@ -39,6 +51,8 @@ func (c lclass) coq() string {
 		return "LHandle"
 	case 1:
 		return "LStore " + instCoq(c.inst)
+	case 3:
+		return "LSchemas"
 	default:
 		return "LMap " + instCoq(c.inst)
 	}
@@ -46,7 +60,7 @@ func (c lclass) coq() string {
 
 // coqArg renders the class as an argument (parenthesised when applied).
 func (c lclass) coqArg() string {
-	if c.kind == 0 {
+	if c.kind == 0 || c.kind == 3 {
 		return c.coq()
 	}
 	return "(" + c.coq() + ")"
@@ -58,6 +72,8 @@ func (c lclass) name() string {
 		return "DB.l"
 	case 1:
 		return "objectStore@" + instName(c.inst)
+	case 3:
+		return "DB.sl"
 	default:
 		return "objectMap@" + instName(c.inst)
 	}
